@@ -2,7 +2,7 @@
 """keep_seed.py <id> <property> "<what I ran and saw>" : store a confirmed seeded change under /verif/seeded/<id>/"""
 import json, os, shutil, sys
 sid, prop, ran = sys.argv[1], sys.argv[2], sys.argv[3]
-src = "/tmp/mut/out/%s" % sid
+src = os.environ.get("SEED_SRC", "/tmp/mut/out") + "/%s" % sid.split("_")[0]
 dst = "/verif/seeded/%s" % sid
 os.makedirs(dst, exist_ok=True)
 shutil.copy(os.path.join(src, "patch.diff"), dst)
@@ -11,7 +11,7 @@ meta = json.load(open(os.path.join(src, "meta.json")))
 out = {"property": prop, "summary": meta.get("summary"), "needs": meta.get("needs"), "files": meta.get("files"),
        "pinned_tests_with_change": meta.get("pinned_tests_after"), "confirmed_by_me": ran,
        "demo": "python demo.py <checkout> exits 0 without the change and non-zero with it (needs the parser stand-in: sys.path /verif, VERIF_REPO=<checkout>)",
-       "base_commit": os.popen("git -C /tmp/mut/%s rev-parse --short HEAD" % sid).read().strip()}
+       "base_commit": os.popen("git -C %s/%s rev-parse --short HEAD" % (os.path.dirname(os.environ.get("SEED_SRC", "/tmp/mut/out")), sid.split("_")[0])).read().strip()}
 json.dump(out, open(os.path.join(dst, "meta.json"), "w"), indent=1)
 # demos were written against a copy of the stand-in under /tmp/vtlfe: point them at /verif
 p = os.path.join(dst, "demo.py")
